@@ -254,9 +254,11 @@ func runDiffCommand() {
 	check(err)
 
 	var comparisons gedcom.IndividualComparisons
+	compared := make(chan struct{})
 
 	go func() {
 		comparisons = leftIndividuals.Compare(rightIndividuals, compareOptions)
+		close(compared)
 	}()
 
 	if optionProgress {
@@ -276,6 +278,10 @@ func runDiffCommand() {
 		for range compareOptions.Notifier {
 		}
 	}
+
+	// The notifier is closed just before Compare returns. The comparisons are
+	// not safe to read until it has.
+	<-compared
 
 	diffProgress := make(chan gedcom.Progress)
 
